@@ -35,7 +35,7 @@ fn main() {
                         "pure" => gens::gen_pure(seed, thorough, &sink),
                         "seq" => gens::gen_seq(seed, if thorough { 8_000 } else { 1_500 }, if thorough { 100 } else { 40 }, false, false, false, &sink),
                         "conc" => gens::gen_conc(seed, if thorough { 600 } else { 150 }, if thorough { 24 } else { 12 }, &sink),
-                        "concx" => gens::gen_concx(seed, 32, thorough, &sink),
+                        "concx" => gens::gen_concx(seed, 160, thorough, &sink),
                         "codec" => codec::gen_codec(seed, if thorough { 1_500 } else { 300 }, if thorough { 6_000 } else { 1_500 }, &sink),
                         "json" => jsonc::gen_json(seed, if thorough { 1_500 } else { 300 }, &sink),
                         "snap" => jsonc::gen_snap(seed, if thorough { 4 } else { 3 }, if thorough { 5_000 } else { 1_500 }, false, &sink),
